@@ -102,6 +102,7 @@ def next [P : HeadParser] (b : Bytes) : NextRes :=
   match P.head b with
   | .incomplete => .incomplete
   | .bad => .nonCanonical
+  | .refuse _ => .invalid
   | .ok h rest =>
     let tes := fieldValues h.fields hdrTransferEncoding
     let cls := fieldValues h.fields hdrContentLength
@@ -116,6 +117,7 @@ def next [P : HeadParser] (b : Bytes) : NextRes :=
           match P.trailers r2 with
           | .incomplete => .incomplete
           | .bad => .nonCanonical
+          | .refuse _ => .invalid
           | .ok _ r3 => .frame ⟨h.method, h.target, body, persistent h⟩ r3
     | [] =>
       match cls with
